@@ -164,7 +164,8 @@ def run_task(task):
     if other_value:
         from checks import c08
         seen = set()
-        for clause, where, d in c08.graph_violations(S.system_objects(m.system), [S.unwrap(o) for o in m.objs.values()]):
+        for item in c08.graph_violations(S.system_objects(m.system), [S.unwrap(o) for o in m.objs.values()]):
+            clause, where, d = item[0], item[1], item[2]
             if (clause, where) not in seen:
                 seen.add((clause, where))
                 res["violations"].append({"sig": {"clause": "graph-after-recovery:" + clause, "failure": fam_names, "where": where},
